@@ -35,6 +35,7 @@ func main() {
 		r.Assume("a source that fails a Next call (dead context, transient error) has consumed nothing (vkit.ProbeStream honours ctx before consuming)")
 		r.Assume("user callbacks never fail in transient scenarios: by the statement a callback failure is the fatal kind, and what a retry after it does is not judged")
 		r.Assume("stream.Runs is consumed as documented: every inner stream is drained to its End before the outer stream is asked again; a failed call is retried on the same stream")
+		r.Assume("a second consumer style of stream.Runs is judged because the library implements it: take the first j items (j in 0..2) of each run, never close the inner stream, and advance the outer stream, which skips the rest of the run itself; a failed call is retried on the same stream")
 		r.Assume("same/eq arguments are equivalence relations")
 		r.Assume("a source signals the normal end by returning stream.End itself; an error that merely wraps stream.End is a failure and must be reported as such")
 		if r.VariantHas("conc") {
